@@ -31,11 +31,16 @@ Form ==
        /\ (E.outs["group"] # E.outs["func"]) => Report("C14", "Group method differs from package function: " \o E.name)
        /\ (E.outs["grouptail"] # E.outs["functail"]) => Report("C14", "Group method does not return the statement it appended: " \o E.name)
        /\ (E.render # E.gostring \/ E.render # E.withfile) => Report("C14", "GoString / Render / RenderWithFile disagree: " \o E.name)
+       /\ (E.one_group # E.one_func) => Report("C14", "Group method with one argument differs from the package function: " \o E.name)
+       /\ (E.arg_after # E.arg_before) => Report("C14", "Group method returns the caller's own statement instead of the new one: " \o E.name)
        /\ (E.log # FormLog(E.name, E.iscallback)) => Report("C14", "callback not run exactly once inside the constructing call: " \o E.name)
   /\ (E.builderror # "" /\ E.builderror # "error cannot synthesise arguments") => Report("C14", "construct panics: " \o E.name)
 Funcv ==
   /\ E.ev = "funcv"
   /\ (E.status # "nil" \/ E.plain # E.funcv) => Report("C14", "Func variant differs from the plain form: " \o E.name)
+EntryEv ==
+  /\ E.ev = "entry"
+  /\ (E.render # E.gostring \/ E.render # E.withfile) => Report("C14", "GoString / Render / RenderWithFile disagree: " \o E.name)
 DictFuncEv ==
   /\ E.ev = "dictfunc"
   /\ (E.status # "nil" \/ E.plain # E.funcv) => Report("C14", "DictFunc differs from the Dict literal")
@@ -47,7 +52,7 @@ TreeEv ==
   /\ (E.log # FullLog(E.tree)) => Report("C14", "callbacks: log is not the log of the specification")
   /\ (E.out # E.ref) => Report("C14", "forms render differently")
 TInit == l = 1 /\ t = Leaf("0")
-TNext == l <= Len(Trace) /\ l' = l + 1 /\ (Form \/ Funcv \/ DictFuncEv \/ TreeEv) /\ UNCHANGED t
+TNext == l <= Len(Trace) /\ l' = l + 1 /\ (Form \/ Funcv \/ EntryEv \/ DictFuncEv \/ TreeEv) /\ UNCHANGED t
 TSpec == TInit /\ [][TNext]_<<l, t>>
 Accepted == TLCGet("stats").diameter - 1 = Len(Trace)
 =============================================================================
